@@ -80,6 +80,8 @@ def strip_wrappers(t):
             t = t[2][0]
         elif is_call(t, 'builtins.filter') and len(t[2]) == 2:
             t = t[2][1]
+        elif t[0] == 'comp' and t[1] in ('list', 'gen', 'set') and len(t[3]) == 1 and t[2][0] == 'iter' and t[2][1] == t[3][0][0]:
+            t = t[3][0][0]          # [x for x in X if cond]: a sub-collection of X
         else:
             return t
 
@@ -156,7 +158,12 @@ def membership_guard(ctx, f, step):
                         if n2.id == nid and nd.kind in ('test', 'stmt') and any(x == sym for x in walk_term(t)) and \
                                 (nd.kind == 'test' or any(x[0] == 'call' and x[1][0] == 'attr' and x[1][2] in ('index', 'find')
                                                           for x in walk_term(t))):
-                            mentions = True
+                            # a test of the symbol against the whole alphabet establishes nothing about the vertex
+                            only_alpha = nd.kind == 'test' and all(
+                                a[0] == 'cmp' and a[1] == 'in' and a[2] == sym and is_alpha(a[3])
+                                for a, _p in flatten_cond(t, True) if any(x == sym for x in walk_term(a)))
+                            if not only_alpha:
+                                mentions = True
                 return 'UNCLASSIFIED' if mentions else None
             hows.add(how)
         if total:
@@ -236,6 +243,10 @@ def r_walk(ctx, fqs, floors=None):
             if l is not None:
                 loops.setdefault(l, []).append(s)
         for li, (hid, ss) in enumerate(sorted(loops.items())):
+            # rule (c) is about loops that consume / emit one strand symbol per iteration; a loop over candidate letters
+            # whose body takes a first step (path_matching) is not one of them
+            if ss[0].reader and not any(_strand_symbol(f, s, hid) for s in ss):
+                continue
             stepnodes = {s.node.id for s in ss}
             resync = resync_nodes(ctx, f, ss)
             paths = ctx.body_paths(f, hid)
@@ -265,6 +276,17 @@ def r_walk(ctx, fqs, floors=None):
         for fq, n in floors.items():
             run.floor('R-WALK', 'walk steps in %s' % fq, total.get(fq, 0), n)
     return total
+
+
+def _strand_symbol(f, step, hid):
+    """is the symbol of this reader step an element of the strand (a parameter named dna_sequence, or a slice of it)?"""
+    sym = step.sym
+    if sym is None:
+        return False
+    for x in walk_term(sym):
+        if x == ('v', 'dna_sequence', 'P'):
+            return True
+    return False
 
 
 def resync_nodes(ctx, f, steps):
